@@ -22,7 +22,7 @@ SOURCE_FILES = ["barter-data/src/streams/reconnect/stream.rs", "barter-data/src/
                 "barter-data/src/streams/consumer.rs", "barter-integration/src/stream/merge.rs",
                 "barter-integration/src/channel.rs"]
 
-_CLAUSE = {"ev": "trace(items_once_in_order/one_notice/errors_pass/backoff)", "fin": "never_ends",
+_CLAUSE = {"ev": "trace(items_once_in_order/one_notice/errors_pass/backoff)", "evn": "trace_length(nothing_beyond_the_prescribed_trace)", "fin": "never_ends",
            "out": "merge_order", "gotL": "merge_order", "gotR": "merge_order", "dfin": "merge_end", "closed": "merge_closed"}
 
 
